@@ -28,9 +28,11 @@ static void build_pair(int la, int lb, int how, int sa, int sb) {
       _mpz_realloc(t, xl + 1); rnd_limbs(PTR(t), xl, 0); SIZ(t) = xl; MPN_NORMALIZE(PTR(t), SIZ(t));
       mpz_set_ui(a, 1); mpz_mul_2exp(a, a, 64 * (la > 1 ? la - 1 : 1)); mpz_set(b, a); mpz_add(a, a, t);
       _mpz_realloc(t, xl + 1); rnd_limbs(PTR(t), xl, 0); SIZ(t) = xl; MPN_NORMALIZE(PTR(t), SIZ(t)); mpz_sub(b, b, t);
-      mpz_setbit(a, 0); mpz_setbit(b, 0);
-      mpz_set_ui(t, 1 + rnd_below(3)); mpz_addmul(b, a, t);
-      if (rnd64() & 1) { mpz_mul_ui(a, a, 1001); mpz_mul_ui(b, b, 1001); }
+      /* a common odd factor WITHOUT leaving the shape: both parts are rounded down to multiples of cf; both numbers odd (mpn_gcd) */
+      { unsigned long cf = (rnd64() & 1) ? 1001 : 1, q = 1 + rnd_below(3) + (rnd_below(4) == 0 ? 9 : 0);
+        mpz_sub_ui(a, a, mpz_fdiv_ui(a, cf)); if (mpz_even_p(a)) mpz_sub_ui(a, a, cf % 2 ? cf : 1);
+        mpz_sub_ui(b, b, mpz_fdiv_ui(b, cf)); if ((mpz_odd_p(b) != 0) != (q % 2 == 0)) mpz_sub_ui(b, b, cf);
+        mpz_addmul_ui(b, a, q); }
       break; }
   default: {
       _mpz_realloc(a, la + 1); if (la) { rnd_limbs(PTR(a), la, (int)rnd_below(NKINDS)); } SIZ(a) = la; MPN_NORMALIZE(PTR(a), SIZ(a));
@@ -89,7 +91,7 @@ void drv_c07_big(int tier, unsigned long seed, const char *extra) {
   shard_t sh = shard_parse(extra); long x = 0; int m, how, j;
   if (sh.pure) return;
   for (m = 2; m <= (tier ? 3 : 2); m++) for (how = 0; how < (tier ? 4 : 2); how++) {       /* quick: the gcdext size only */
-    int la = m * HGCD_REDUCE_THRESHOLD + 8 + (int)rnd_below(40), hw = how == 0 ? 9 : how == 1 ? 0 : how == 2 ? 9 : 3;
+    int la = m * HGCD_REDUCE_THRESHOLD + HGCD_REDUCE_THRESHOLD / 3 + (int)rnd_below(40), hw = how == 0 ? 9 : how == 1 ? 0 : how == 2 ? 9 : 3;
     x++; if (!MINE(sh, x)) continue;
     rec_reset("c07_big", x, seed);
     for (j = 0; j < 5; j++) callf("mpz_init", j);
